@@ -25,6 +25,7 @@ type c18Case struct {
 	State  string   `json:"state"` // ok | nouse | faileduse | emptydb | timer
 	SQL    []string `json:"sql"`
 	ParkAt int      `json:"park_at,omitempty"` // timer state: hold a statement open at its k-th page lookup
+	IdleMs int      `json:"idle_ms,omitempty"` // timer state: the session sits idle this long (timer running) before the statements
 }
 
 // the schema the statements run against: names come from the pools the
@@ -68,6 +69,8 @@ var c18Targeted = []string{
 	"SELECT avg(*) FROM t0", "SELECT a, avg(*) FROM t0 GROUP BY a", "SELECT avg(*)", "SELECT count() FROM t0", "SELECT avg() FROM t0", "SELECT count(*, a) FROM t0", "SELECT avg(1) FROM t0",
 	"SELECT count(1) FROM t0", "SELECT avg(a, d) FROM t0", "SELECT count(count(*)) FROM t0", "SELECT avg(avg(a)) FROM t0", "SELECT count(t0.*) FROM t0", "SELECT t0.* FROM t0", "SELECT avg('x') FROM t0",
 	"SELECT count(NULL) FROM t0", "SELECT avg(NULL) FROM t0", "SELECT * FROM t0 WHERE avg(a) > 1", "SELECT * FROM t0 ORDER BY count(*)", "SELECT * FROM t0 GROUP BY a", "SELECT count(*) FROM t0 ORDER BY a",
+	"SELECT * FROM t0 LIMIT 1 LIMIT 2", "SELECT * FROM t0 LIMIT 3 OFFSET 1 LIMIT 2", "SELECT * FROM t0 OFFSET 1 OFFSET 2", "SELECT * FROM t0 OFFSET 1 LIMIT 2 OFFSET 3", "SELECT * FROM t0 ORDER BY a ORDER BY b",
+	"SELECT * FROM t0 WHERE a = 1 WHERE a = 2", "SELECT * FROM t0 GROUP BY a GROUP BY b", "SELECT a FROM t0 FROM t1", "UPDATE t0 SET a = 1 SET d = 2", "INSERT INTO t0 VALUES (1) VALUES (2)",
 	"SELECT * FROM t0 LIMIT a", "SELECT * FROM t0 LIMIT 'x'", "SELECT * FROM t0 OFFSET NULL", "INSERT INTO t0 VALUES (avg(a))", "INSERT INTO t0 VALUES (a)", "INSERT INTO t0 VALUES (NULL, NULL, NULL, NULL)",
 	"UPDATE t0 SET a = NULL", "UPDATE t0 SET a = count(*)", "UPDATE t0 SET a = a", "DELETE FROM t0 WHERE count(*) > 1", "SELECT * FROM t0 WHERE NULL", "SELECT * FROM t0 WHERE a = NULL", "SELECT NULL FROM t0", "SELECT NULL",
 	"USE nosuch", "USE d1", "CREATE DATABASE d1", "SHOW DATABASES", "SELECT count(*), avg(a) FROM t2", "SELECT a, count(*) FROM t2 GROUP BY a", "SELECT avg(a) FROM t0 WHERE a > 100",
@@ -253,6 +256,9 @@ func c18Run(c c18Case, st *vlib.Stats) string {
 	case "emptydb":
 		eng.Exec("USE " + DBName)
 	}
+	if c.IdleMs > 0 {
+		time.Sleep(time.Duration(c.IdleMs) * time.Millisecond)
+	}
 	for i, q := range c.SQL {
 		done := make(chan error, 1)
 		atomic.StoreInt64(&c18Statement, 1)
@@ -303,5 +309,20 @@ func c18Run(c c18Case, st *vlib.Stats) string {
 }
 
 func TestC18(t *testing.T) {
-	vlib.Drive(t, vlib.Prop[c18Case]{ID: "C18", Gen: c18Gen, Run: c18Run})
+	st := vlib.NewStats("C18")
+	defer st.Write(Cfg, "C18")
+	if Cfg.Replay == "" && (Cfg.Shard == 0 || (Cfg.Tier == "thorough" && Cfg.Shard == 1)) {
+		// one fixed case: a session that sits idle for seconds with the flush timer running and then
+		// switches databases and goes on (what the timer goroutine does while nothing happens must
+		// not get in the way of the statements that follow)
+		ic := c18Case{State: "timer", ParkAt: 3, IdleMs: 5600 + 6400*Cfg.Shard,
+			SQL: []string{"CREATE DATABASE d_after_idle", "USE d_after_idle", "CREATE TABLE t0 (a INT)", "INSERT INTO t0 VALUES (1)", "USE " + DBName, "SELECT * FROM t0", "USE d_after_idle", "SELECT * FROM t0"}}
+		if msg := c18Run(ic, st); msg != "" {
+			b, _ := json.Marshal(ic)
+			st.Fail("fixed idle-session case: "+msg, b)
+			vlib.Logf("FAIL C18 (idle session): %s", msg)
+			return
+		}
+	}
+	vlib.DriveWith(t, vlib.Prop[c18Case]{ID: "C18", Gen: c18Gen, Run: c18Run}, Cfg, st)
 }
